@@ -21,7 +21,13 @@ extern void destroy_obj(struct obj *o);
 
 #define MAXTAB 64
 static struct { int n; uint8_t *k[64], *v[64]; size_t kl[64], vl[64]; } tabs[MAXTAB];
-static char fsdir[300], setfile[340];
+static char fsdir[300], fsdir2[310], setfile[340];
+/* "@name" = a file in a second directory, outside the setfile's own: always listed by absolute path */
+static void fs_path(char *b, size_t n, const char *name)
+{
+	if (name[0] == '@') snprintf(b, n, "%s/%s", fsdir2, name + 1);
+	else snprintf(b, n, "%s/%s", fsdir, name[0] == '/' ? name + 1 : name);
+}
 static long set_version;
 static struct mstate fs_mstate;
 
@@ -64,6 +70,7 @@ int ops_fileset(char **args, int na)
 	const char *op = args[0];
 	if (!strcmp(op, "fs.begin")) {
 		snprintf(fsdir, sizeof fsdir, "%s/fs", vf_tmpdir); mkdir(fsdir, 0700);
+		snprintf(fsdir2, sizeof fsdir2, "%s/other-dir", vf_tmpdir); mkdir(fsdir2, 0700);
 		snprintf(setfile, sizeof setfile, "%s/set.fileset", fsdir);
 		FILE *f = fopen(setfile, "w"); if (!f) return -1; fclose(f);
 		set_version = 0;
@@ -81,7 +88,7 @@ int ops_fileset(char **args, int na)
 		puts("ok"); return 0;
 	}
 	if (!strcmp(op, "fs.file") && na == 3) {
-		char path[700]; snprintf(path, sizeof path, "%s/%s", fsdir, args[1]);
+		char path[700]; fs_path(path, sizeof path, args[1]);
 		unlink(path);
 		if (!strcmp(args[2], "nt")) {
 			FILE *f = fopen(path, "w"); if (!f) return -1; fputs("this is not a table\n", f); fclose(f);
@@ -99,13 +106,14 @@ int ops_fileset(char **args, int na)
 		puts("ok"); return 0;
 	}
 	if (!strcmp(op, "fs.rm") && na == 2) {
-		char path[700]; snprintf(path, sizeof path, "%s/%s", fsdir, args[1]); unlink(path); puts("ok"); return 0;
+		char path[700]; fs_path(path, sizeof path, args[1]); unlink(path); puts("ok"); return 0;
 	}
 	if (!strcmp(op, "fs.set")) {
 		/* rewrite the setfile in place (same inode) and give it a strictly larger mtime */
 		FILE *f = fopen(setfile, "w"); if (!f) return -1;
 		for (int i = 1; i < na; i++) {
 			if (args[i][0] == '/') fprintf(f, "%s%s\n", fsdir, args[i]);     /* "/name" = listed by absolute path */
+			else if (args[i][0] == '@') fprintf(f, "%s/%s\n", fsdir2, args[i] + 1);
 			else fprintf(f, "%s\n", args[i]);
 		}
 		fclose(f);
